@@ -13,11 +13,13 @@ T == Traces[tid]
 
 TraceInit == /\ tid \in 1..Len(Traces)
              /\ path = Traces[tid].path /\ pre = Traces[tid].pre /\ leaf = Traces[tid].leaf
-             /\ k = 1 /\ base = 0 /\ row = pre /\ src = 0 /\ abs = pre + 1 /\ ssrc = 0 /\ marks = <<>>
+             /\ k = 1 /\ base = 0 /\ row = pre /\ src = 0 /\ abs = pre + 1 /\ ssrc = 0 /\ marks = <<>> /\ inner = <<>>
 TraceNext == Next /\ UNCHANGED tid
 TraceSpec == TraceInit /\ [][TraceNext]_tvars
 
-Bad == {n \in 1..Len(marks) : n > Len(T.obs) \/ T.obs[n][1] # marks[n].m \/ T.obs[n][2] # marks[n].src}
+(* the block_quote node that docutils' quote directives (epigraph, ...) return gets its line from docutils' *)
+(* own BlockQuote code, not from MyST: its own mark is not compared, everything inside it is              *)
+Bad == {n \in 1..Len(marks) : marks[n].what # "quote-directive" /\ (n > Len(T.obs) \/ T.obs[n][1] # marks[n].m \/ T.obs[n][2] # marks[n].src)}
 Verdict == Done => PrintT(ToJson([id |-> T.id, bad |-> Bad, n |-> Len(marks),
                                   exp |-> [n \in 1..Len(marks) |-> <<marks[n].what, marks[n].m, marks[n].src>>]]))
 =============================================================================
